@@ -212,6 +212,13 @@ func checkBatch(c batchCase) *vt.Fail {
 				pf := strings.TrimPrefix(f, "--pid=")
 				if b, err := os.ReadFile(pf); err == nil {
 					if tskit.Alive(strings.TrimSpace(string(b))) {
+						var pid int
+						fmt.Sscan(string(b), &pid)
+						if pid > 1 {
+							if p, err := os.FindProcess(pid); err == nil {
+								p.Kill() // do not leave it behind in the sandbox
+							}
+						}
 						return vt.Failf("process-left-alive", "a background helper started by a script is still alive after RunT returned (%s)", strings.TrimSpace(string(b)))
 					}
 					last.leftover = true
@@ -383,7 +390,7 @@ func genBatch(t *rapid.T) batchCase {
 		RequireExplicitExec: rapid.IntRange(0, 5).Draw(t, "explicit") == 0}
 	n := rapid.IntRange(2, 10).Draw(t, "nscripts")
 	o := tsgen.Options{MaxLines: 14, FailProb: 35, Exec: true, Background: true, Custom: true, FixedParams: &c.P, PidDir: pidDir(), Prologue: []string{"exec vmain dumpenv", "recstd"}, AllowChmod2: true,
-		ExtraKinds: []string{"cd", "cd", "cd", "cd", "mkdir", "mkdir", "exists", "exists", "env", "cp", "probe", "probe", "exec", "bg"}}
+		ExtraKinds: []string{"cd", "cd", "cd", "cd", "mkdir", "mkdir", "exists", "exists", "env", "cp", "probe", "probe", "exec", "bg", "bg", "bg", "bgwait", "bgwait", "wait", "bgmix", "bgmix"}}
 	for i := 0; i < n; i++ {
 		if rapid.IntRange(0, 5).Draw(t, "pathtemplate") == 0 {
 			// scripts that differ in whether zzprog is on their PATH
